@@ -335,6 +335,25 @@ pub fn run(ctx: &mut Ctx) {
     lineseq_stage(ctx, if quick { 6 } else { 8 }, 0.80, true, |ctx, rd, sp| {
         judge_one(ctx, rd, sp, &step_cfg(STEP), STEP, "lineseq");
     });
+    // ---- C3: wrapper-line child templates (exhaustive) behind the admission gate
+    for sp in [short_sp(), Sp::new("«", "»", "t.l", "r+m")] {
+        let mut rank = shard;
+        while let Some(s) = wrapper_child_template(rank, &sp) {
+            rank += n;
+            if ctx.past(0.82) {
+                break;
+            }
+            match admit(&s, &sp, &cfg) {
+                Ok(rd) => {
+                    if is_c04 && rd.elems.iter().any(|e| e.ready(STEP)) {
+                        continue;
+                    }
+                    judge_one(ctx, &rd, &sp, &cfg, STEP, "junk-atoms");
+                }
+                Err(why) => ctx.skip(why),
+            }
+        }
+    }
     // ---- D: junk documents (pipeline atoms, exhaustive) behind the admission gate
     let sps = [short_sp(), default_sp(), Sp::new("«", "»", "期限", "印"), Sp::new("|", "|", "tl", "m")];
     for (k, sp) in sps.iter().enumerate() {
